@@ -171,7 +171,19 @@ FLAVOURS = [
     ('falsy', {'__bool__': lambda self: False}),
     ('empty', {'__len__': lambda self: 0}),
     ('all-equal', {'__eq__': lambda self, other: True, '__hash__': lambda self: 1}),
+    # the CLASSES are iterable (metaclass __iter__), like Enum classes; instances are plain
+    ('iterable-class', {}),
 ]
+
+
+def make_root(fname, fns, bases, meta_base, ns):
+    """Fresh root class of a hierarchy.  Flavour 'iterable-class': its metaclass (inherited by every class
+    created below it with type()) defines __iter__, as enum.EnumMeta does."""
+    ns = dict(fns, **ns)
+    if fname == 'iterable-class':
+        meta = type('IterMeta', (meta_base,), {'__iter__': lambda cls: iter(())})
+        return meta('Root', bases, ns)
+    return type('Root', bases, ns)
 
 
 def h_components(sp, n=4, query_root=False, second='any', flavours=1, late=False, virtual=False):
@@ -180,7 +192,7 @@ def h_components(sp, n=4, query_root=False, second='any', flavours=1, late=False
     if fname != 'plain':
         sp.cover('unusual-' + fname)
         sp.note('component instances are %s' % fname)
-    root = type('Root', (), dict(fns))
+    root = make_root(fname, fns, (), type, {})
     classes = build_hierarchy(sp, n, root, {})
     if classes is None:
         sp.done()
@@ -290,13 +302,13 @@ def oracle_processors(sp, w, procs, order, types, when):
                          '%s: get_processor(%s) does not prefer the exact type' % (when, T.__name__))
 
 
-def h_processors(sp, n=4, query_root=False, flavours=1, late=False):
+def h_processors(sp, n=4, query_root=False, flavours=1, late=False, prios=False):
     _tick()
     fname, fns = FLAVOURS[sp.choose(flavours, 'flavour')] if flavours > 1 else FLAVOURS[0]
     if fname != 'plain':
         sp.cover('unusual-' + fname)
         sp.note('processor instances are %s' % fname)
-    Root = type('Root', (desper.Processor,), dict(fns, process=lambda self, dt: None))
+    Root = make_root(fname, fns, (desper.Processor,), abc.ABCMeta, dict(process=lambda self, dt: None))
     classes = build_hierarchy(sp, n, Root, {})
     if classes is None:
         sp.done()
@@ -306,9 +318,16 @@ def h_processors(sp, n=4, query_root=False, flavours=1, late=False):
     for T in classes:
         if sp.flag('registered[%s]' % T.__name__):
             p = T()
-            w.add_processor(p)
+            if prios:
+                # any integer priority: bisect (and whatever else compares priorities) is decided by the solver,
+                # so every order of the registered processors in `processors` is explored
+                pr = sp.int('prio[%s]' % T.__name__)
+                w.add_processor(p, priority=pr)
+                sp.note('add_processor(%s(), priority=%s)' % (T.__name__, pr))
+            else:
+                w.add_processor(p)
+                sp.note('add_processor(%s())' % T.__name__)
             procs[T] = p
-            sp.note('add_processor(%s())' % T.__name__)
     order = list(w.processors)
     sp.check(sorted(id(p) for p in order) == sorted(id(p) for p in procs.values()), 'processors-set',
              'processors lists %d objects, %d registered' % (len(order), len(procs)))
@@ -349,6 +368,9 @@ def h_processors(sp, n=4, query_root=False, flavours=1, late=False):
         sp.cover('only-subtypes-match')
     if T in procs and len(matches) >= 2:
         sp.cover('exact-among-several')
+        pos = [i for i, q in enumerate(order) if q is procs[T]]
+        if pos and any(any(q is x for x in matches) for q in order[:pos[0]]):
+            sp.cover('subclass-sorted-before-exact')
     sp.note('remove_processor(%s)' % T.__name__)
     try:
         r = w.remove_processor(T)
@@ -375,7 +397,8 @@ def h_processors(sp, n=4, query_root=False, flavours=1, late=False):
 
 _TAGS = ['multiple-inheritance', 'several-routes', 'diamond', 'redundant-base', 'several-match',
          'only-subtypes-match', 'exact-among-several', 'removed', 'mro-rejected']
-_UNUSUAL = ['unusual-falsy', 'unusual-empty', 'unusual-all-equal', 'removed']
+_UNUSUAL = ['unusual-falsy', 'unusual-empty', 'unusual-all-equal', 'unusual-iterable-class', 'removed']
+_PRIOS = ['subclass-sorted-before-exact', 'exact-among-several', 'only-subtypes-match', 'removed']
 _VIRTUAL = ['virtual-subclass-queried', 'removed', 'only-subtypes-match', 'multiple-inheritance']
 _LATE = ['late-class', 'late-two-bases', 'late-under-queried', 'late-mro-rejected', 'multiple-inheritance']
 
@@ -387,9 +410,10 @@ HARNESSES = {
 TIERS = {
     'quick': [
         ('components', dict(n=4)),
-        ('components', dict(n=3, flavours=4), dict(required=['unusual-falsy', 'unusual-empty', 'unusual-all-equal', 'removed'])),
+        ('components', dict(n=3, flavours=5), dict(required=_UNUSUAL)),
         ('processors', dict(n=4)),
-        ('processors', dict(n=3, flavours=4), dict(required=_UNUSUAL)),
+        ('processors', dict(n=3, flavours=5), dict(required=_UNUSUAL)),
+        ('processors', dict(n=3, prios=True), dict(required=_PRIOS)),
         ('components', dict(n=3, late=True), dict(required=_LATE)),
         ('components', dict(n=3, virtual=True), dict(required=_VIRTUAL)),
         ('processors', dict(n=3, late=True), dict(required=_LATE)),
@@ -397,10 +421,11 @@ TIERS = {
     'thorough': [
         ('components', dict(n=5, second='last')),
         ('components', dict(n=4, query_root=True)),
-        ('components', dict(n=4, flavours=4), dict(required=['unusual-falsy', 'unusual-empty', 'unusual-all-equal', 'removed'])),
+        ('components', dict(n=4, flavours=5), dict(required=_UNUSUAL)),
         ('processors', dict(n=5)),
         ('processors', dict(n=4, query_root=True)),
-        ('processors', dict(n=4, flavours=4), dict(required=_UNUSUAL)),
+        ('processors', dict(n=4, flavours=5), dict(required=_UNUSUAL)),
+        ('processors', dict(n=4, prios=True), dict(required=_PRIOS)),
         ('components', dict(n=4, late=True, second='last'), dict(required=_LATE)),
         ('components', dict(n=3, late=True, query_root=True, flavours=4), dict(required=_LATE + _UNUSUAL[:3])),
         ('processors', dict(n=4, late=True), dict(required=_LATE)),
@@ -423,7 +448,7 @@ RULE = ('one evaluation = one feasible path = one (hierarchy, base order, owned 
         '(tag mro-rejected) are counted but trivial')
 BOUNDS = {
     'quick': 'n=4 classes below a fresh root: all 64 DAGs x 2 base orders, 16 owned subsets on entity 1, '
-             '0-1 component on entity 2, 4 query types; n=3 with falsy / empty / all-equal instances; the same for Processor subclasses (16 registered subsets); '
+             '0-1 component on entity 2, 4 query types; n=3 with falsy / empty / all-equal instances and with iterable classes; n=3 processors with symbolic integer priorities; the same for Processor subclasses (16 registered subsets); '
              'n=3 hierarchies + one class defined after a first round of queries (by one type or by all), 9 base choices, '
              'then every query by every type including the late class; n=3 hierarchies + two ABC query types (register / '
              '__subclasshook__) that claim a symbolically chosen class as virtual subclass',
@@ -431,7 +456,7 @@ BOUNDS = {
                 '5 query types; '
                 'n=4 additionally queried by the root class; n=4 with unusual instances; the same for Processor '
                 'subclasses; late-class phase on n=4 (16 base choices) and on n=3 with root query and unusual instances; '
-                'virtual-subclass ABC query types on n=4',
+                'virtual-subclass ABC query types on n=4; n=4 processors with symbolic integer priorities; iterable classes on n=4',
 }
 ASSUMPTIONS = [
     'classes are created with type() and stay alive for the whole path; __subclasses__() is not overridden',
@@ -448,8 +473,12 @@ ASSUMPTIONS = [
     'a subclass in the sense of the statement, so a query by such an ABC matches nothing - and all six queries '
     'must agree on that',
     'components and processors are plain (no event handlers; callbacks are C02/C07)',
-    'processors are added with their class default priority 0, so `processors` keeps insertion order; only the '
-    'membership and the relative order of the survivors are checked here (ordering is C07)',
+    'processors are added with their class default priority 0, except in the `prios` entries where every '
+    'processor gets an explicit unbounded symbolic integer priority (so a subclass instance may sort before, '
+    'after or level with the exact-type one); `processors` is read after the adds and only the membership and '
+    'the relative order of the survivors are checked here (ordering is C07)',
+    'flavour iterable-class: the classes themselves are iterable (metaclass __iter__, the Enum pattern); they '
+    'are still ordinary types for every query',
 ]
 OUTSIDE = ['hierarchies with more than 5 classes below the root', 'base orders other than ascending/descending',
            'virtual subclasses among Processor classes (components only)',
